@@ -4,7 +4,7 @@
    known q h = bits [0,8q] and [57,63] of h = what a bucket keeps next to an element of class q. *)
 From Coq Require Import ZArith List.
 From MomoCommon Require Import GenPrelude.
-From C12 Require Gen_Base Gen_O2 Gen_O2MP Gen_P4 Gen_One Known P4_Model P4_Slot P4_Bucket O2_Slot Chain O2_Bucket MP_Open2N2 TableO2 TableO2_Proofs.
+From C12 Require Gen_Base Gen_O2 Gen_O2MP Gen_P4 Gen_One Known P4_Model P4_Slot P4_Bucket O2_Slot Chain O2_Bucket MP_Open2N2 TableO2 TableO2_Proofs TableP4 TableP4_Proofs.
 Import ListNotations.
 Local Open Scope Z_scope.
 
@@ -296,3 +296,88 @@ Theorem C12_one_bucket_state_machine :
     end.
 Proof. exact O2_Bucket.one_reach_inv. Qed.
 Print Assumptions C12_one_bucket_state_machine.
+
+(* ---------------------------------------------------------------------------------------------------------------
+   LimP4 table level (TableP4.v: hand L1 model of pvAddNogrow / pvRelocateItems / Remove for BucketLimP4 over the generated
+   IsFull, GetNextBucketIndex, GetStartBucketIndex, pvSetHashProbe, pvCalcShortHash, pvGetCount, Remove, GetHashCodePart, with
+   the memory-pool index (WasFull) kept by hand; run against the real HashSet<.., HashBucketLimP4<>> in both hashCount builds). *)
+
+(* element_found_after_growth, LimP4: for every hashCount 4..8, every minMemPoolIndex 1..4, every L < newL <= 63: migrating
+   every element with reconstructed codes fails no assertion, and every key of the old table ends on the LINEAR probe path
+   of the home bucket of its TRUE hash with every bucket before it on that path in the WasFull state (so pvFind's
+   `bucket->WasFull() && probe <= maxProbe` walk reaches it), in a slot holding its true short hash. *)
+Theorem C12_limp4_element_found_after_growth :
+  forall H mm hash, 4 <= H <= 8 -> 1 <= mm <= 4 -> (forall k, 0 <= hash k < 2 ^ 64) ->
+  forall L newL told, 0 <= L -> L < newL <= 63 -> TableP4_Proofs.PTinv H hash L told ->
+    match TableP4.pmigrate H mm hash told L newL with
+    | Ok (_, tnew, _) => TableP4_Proofs.PTinv H hash newL tnew /\
+                         (forall k, TableP4_Proofs.PPresent L told k -> TableP4_Proofs.PFound hash newL tnew k)
+    | Exn => True
+    | _ => False
+    end.
+Proof. exact TableP4_Proofs.pmigrate_found. Qed.
+Print Assumptions C12_limp4_element_found_after_growth.
+
+(* removal between insertions: bucket.Remove of ANY element keeps the table invariant (uses the bucket-level Remove
+   theorems p4_remove_inv / p4_remove_last_inv); WasFull is never lost by a removal *)
+Theorem C12_limp4_table_remove_keeps_invariant :
+  forall H mm hash, 4 <= H <= 8 -> 1 <= mm <= 4 -> (forall k, 0 <= hash k < 2 ^ 64) ->
+  forall L t b idx, 0 <= L <= 63 -> TableP4_Proofs.PTinv H hash L t -> 0 <= idx < TableP4.pcnt (t b) ->
+    exists t', TableP4.premove_at H mm t b idx = Ok t' /\ TableP4_Proofs.PTinv H hash L t' /\
+      TableP4.pcnt (t' b) = TableP4.pcnt (t b) - 1 /\ (forall j, j <> b -> t' j = t j) /\
+      (forall k, TableP4_Proofs.PPresent L t k -> k = TableP4.pky (t b) idx \/ TableP4_Proofs.PPresent L t' k).
+Proof. exact TableP4_Proofs.premove_at_spec. Qed.
+Print Assumptions C12_limp4_table_remove_keeps_invariant.
+
+Theorem C12_limp4_insert_establishes_table_invariant :
+  forall H hash, 4 <= H <= 8 -> (forall k, 0 <= hash k < 2 ^ 64) ->
+  forall L, 0 <= L <= 63 -> forall keys t, TableP4_Proofs.PTinv H hash L t ->
+    match TableP4.pinsert_all H hash t L keys with
+    | Ok t' => TableP4_Proofs.PTinv H hash L t' /\ (forall k, TableP4_Proofs.PPresent L t k -> TableP4_Proofs.PPresent L t' k) /\
+               (forall k, In k keys -> TableP4_Proofs.PPresent L t' k)
+    | Exn => True
+    | _ => False
+    end.
+Proof. exact TableP4_Proofs.pinsert_all_inv. Qed.
+Print Assumptions C12_limp4_insert_establishes_table_invariant.
+
+Theorem C12_limp4_empty_table_invariant :
+  forall H mm hash, 4 <= H <= 8 -> 1 <= mm <= 4 -> forall L, TableP4_Proofs.PTinv H hash L (TableP4.pempty_table H mm).
+Proof. exact TableP4_Proofs.pempty_inv. Qed.
+Print Assumptions C12_limp4_empty_table_invariant.
+
+(* ---- round 3, Open2N2 table level ---- *)
+(* chained generations: relocating ANY older generation (2^L buckets, any L < newL, not only L+1) into a newest table that
+   ALREADY holds elements (pvRelocateItems(buckets) recursion, oldest first) keeps both invariants; no key is lost; when the
+   loop completes every bucket of the older generation is empty.  (The loops with a throwing full getter, migrate_from_c /
+   migrate_gens, are tied to the real code by `tbl2` cases but carry no theorem.) *)
+Theorem C12_open2n2_older_generation_into_newest :
+  forall hash, (forall k, 0 <= hash k < 2 ^ 64) ->
+  forall L newL, 0 <= L -> L < newL <= 63 ->
+  forall n told tnew i, 0 <= i -> i + Z.of_nat n <= 2 ^ L -> TableO2_Proofs.Tinv hash L told -> TableO2_Proofs.Tinv hash newL tnew ->
+    (forall j, 0 <= j < i -> TableO2.cnt (told j) = 0) ->
+    match TableO2.migrate_from hash n told tnew L newL i with
+    | Ok (told', tnew') => TableO2_Proofs.mig_post hash L newL told tnew told' tnew' /\
+                           (forall j, 0 <= j < i + Z.of_nat n -> TableO2.cnt (told' j) = 0)
+    | Exn => True
+    | _ => False
+    end.
+Proof. exact TableO2_Proofs.migrate_from_spec. Qed.
+Print Assumptions C12_open2n2_older_generation_into_newest.
+
+(* removal between insertions at table level: HashSet::Remove of any stored element keeps the table invariant *)
+Theorem C12_open2n2_table_remove_keeps_invariant :
+  forall hash L t b slot, TableO2_Proofs.Tinv hash L t -> TableO2_Proofs.occ (t b) slot ->
+    exists t', TableO2.remove_at t b slot = Ok t' /\ TableO2_Proofs.Tinv hash L t' /\
+      TableO2.cnt (t' b) = TableO2.cnt (t b) - 1 /\ (forall j, j <> b -> t' j = t j) /\
+      (forall k, TableO2_Proofs.Present L t k -> k = TableO2.bky (t b) slot \/ TableO2_Proofs.Present L t' k).
+Proof. exact TableO2_Proofs.remove_at_spec. Qed.
+Print Assumptions C12_open2n2_table_remove_keeps_invariant.
+
+(* the model's full-getter call counter (does the GENERATED GetHashCodePart's answer depend on the getter's value?) is exactly
+   the branch condition: empty marker or class change *)
+Theorem C12_open2n2_getter_call_observer :
+  forall b i L newL slot, 0 <= L <= 63 -> 0 <= newL <= 63 -> 0 <= TableO2.bhp b slot < 256 ->
+    TableO2.getter_used b i L newL slot = O2_Slot.o2_full_used (TableO2.bhp b slot) L newL.
+Proof. exact TableO2_Proofs.getter_used_spec. Qed.
+Print Assumptions C12_open2n2_getter_call_observer.
